@@ -113,8 +113,89 @@ def C02(ck):
     ck.cov['evaluations'] += int(so.strip() or 0)
     ck.cov['states'] += res.distinct
     os.remove(hf)
+    _cli_damage(ck, T)
     ck.assumptions += ['a 32/64-bit checksum collision on a damaged block is not distinguished from a benign modification',
                        'modifications are confined to block payloads as located by harness/kzfmt (spec: KzFormat)']
+
+
+def _cli_damage(ck, T):
+    """The property at the command line: `kanzi -d` on a checksummed stream with one damaged block payload must exit non-zero or deliver
+    the original bytes. The read loop of the tool is a caller of the library of its own: block sizes below / not a multiple of its
+    32 KiB read buffer, outputs without a size check (stdout, a stream without a size in its header), several jobs."""
+    import random, hashlib, subprocess, shutil
+    cli = kzv.build_cli()
+    kzh = kzv.build_harness()
+    root = os.path.join(kzv.BUILD, 'tlc', 'clidmg_%d' % os.getpid())
+    shutil.rmtree(root, ignore_errors=True)
+    os.makedirs(root)
+    rnd = random.Random(ck.seed * 7717 + 5)
+    events = []
+    try:
+        blocks = [1024, 4096, 8192, 12288, 49152, 65536, 32768]
+        n = 60 if T else 14
+        for i in range(n):
+            B = blocks[i % len(blocks)]
+            nb = rnd.randint(4, 12)
+            size = (nb - 1) * B + rnd.randint(1, B)
+            data = rnd.randbytes(size) if i % 3 else bytes(rnd.choice(b'abcdefgh \n') for _ in range(size))
+            f = os.path.join(root, 'in%d' % i)
+            open(f, 'wb').write(data)
+            t, e = rnd.choice([('NONE', 'NONE'), ('LZ', 'HUFFMAN'), ('NONE', 'ANS0'), ('RLT', 'NONE')])
+            opts = ['-b', str(B), '-t', t, '-e', e, rnd.choice(['-x32', '-x64']), '-j', str(rnd.choice([1, 2, 3, 4])), '-v', '0']
+            knz = f + '.knz'
+            piped = i % 2 == 0
+            if piped:
+                # from a pipe: no size in the header
+                with open(f, 'rb') as fi, open(knz, 'wb') as fo:
+                    rc = subprocess.run([cli, '-c'] + opts, stdin=fi, stdout=fo, stderr=subprocess.DEVNULL, timeout=600).returncode
+            else:
+                rc = subprocess.run([cli, '-c', '-i', f, '-o', knz, '-f'] + opts, stdout=subprocess.DEVNULL, stderr=subprocess.DEVNULL, timeout=600).returncode
+            if rc != 0:
+                raise kzv.ToolFailure('cli compression failed (%s)' % ' '.join(opts))
+            rcp, so, se, dt = kzv.run([kzh, 'parse', knz], timeout=120)
+            info = json.loads(so.splitlines()[0])
+            if rcp != 0 or not info.get('ok'):
+                raise kzv.ToolFailure('independent parser rejects a stream written by the tool: ' + so[:300])
+            spans = [sp for sp in info['spans'] if sp[1] - sp[0] >= 64]
+            stream = bytearray(open(knz, 'rb').read())
+            for rep in range(3 if T else 2):
+                bi = rnd.randrange(1 if len(spans) > 1 else 0, len(spans))
+                a, b = spans[bi]
+                bit = rnd.randrange(a + 16, b - 16)
+                dmg = bytearray(stream)
+                dmg[bit >> 3] ^= 0x80 >> (bit & 7)
+                dfile = knz + '.dmg%d' % rep
+                open(dfile, 'wb').write(dmg)
+                jobs = rnd.choice([1, 2, 3, 4])
+                how = ['stdout', 'file'][rep % 2]
+                if how == 'stdout':
+                    p = subprocess.run([cli, '-d', '-i', dfile, '-o', 'stdout', '-j', str(jobs), '-v', '0'], stdout=subprocess.PIPE, stderr=subprocess.DEVNULL, timeout=600)
+                    got = p.stdout
+                else:
+                    outf = dfile + '.out'
+                    p = subprocess.run([cli, '-d', '-i', dfile, '-o', outf, '-f', '-j', str(jobs), '-v', '0'], stdout=subprocess.DEVNULL, stderr=subprocess.DEVNULL, timeout=600)
+                    got = open(outf, 'rb').read() if os.path.exists(outf) else b''
+                events.append({'ev': 'DAMAGED', 'exit': p.returncode, 'equal': got == data,
+                               'desc': '%s block %d of %d, bit %d flipped in block %d, -d -o %s -j %d, %s' % (' '.join(opts), B, len(spans), bit, bi, how, jobs,
+                                                                                                         'compressed from a pipe' if piped else 'compressed from a file'),
+                               'detail': 'delivered %d of %d bytes' % (len(got), len(data))})
+        tracef = os.path.join(root, 'trace.ndjson')
+        with open(tracef, 'w') as fh:
+            for e in events:
+                fh.write(json.dumps(e) + '\n')
+        res = kzv.validate_trace('Trace_Cli', tracef, timeout=600)
+        if res.error or res.violated:
+            raise kzv.ToolFailure('Trace_Cli failed: %s %s' % (res.error, res.violated))
+        for e, pred in _violations_from(res.out, events)[:5]:
+            ck.violation({'kind': 'cli', 'pred': pred, 'desc': e['desc'], 'detail': e['detail'], 'exit': e['exit']}, {'cmd': 'cli-damage', 'event': e}, name='cli')
+        ck.cov['evaluations'] += len(events)
+        ck.cov['traces_validated_against_impl'] += len(events)
+        ck.cov['cli_damaged_streams'] = len(events)
+        ck.cov['cli_damaged_rejected'] = len([e for e in events if e['exit'] != 0])
+        if events and not any(e['exit'] != 0 for e in events):
+            raise kzv.ToolFailure('no damaged stream was rejected by the tool: the damage does not reach the blocks')
+    finally:
+        shutil.rmtree(root, ignore_errors=True)
 
 
 # ------------------------------------------------------------------------------------------------
